@@ -11,3 +11,5 @@ package do
 //@ func (g *gen) Generate(typs []types.Type) (err error)
 //@ param typs: len=2,3
 //@ emits: decls
+//@ o-header: unchecked
+//@ o-text-only: all
